@@ -27,9 +27,12 @@ USES_THREADS = {"threading", "sequential"}
 UNSET = "<unset>"
 
 
-def group_settings():
+def group_settings(with_none=False):
+    """with_none: also the explicit value None for prefer / require ("no hint", which is not the same as leaving the
+    parameter out: an explicit None still wins over the enclosing context)."""
     out = []
-    for b, nj, pr, rq in itertools.product(BACKENDS, (UNSET, 2), (UNSET, "threads", "processes"), (UNSET, "sharedmem")):
+    for b, nj, pr, rq in itertools.product(BACKENDS, (UNSET, 2), (UNSET, "threads", "processes") + ((None,) if with_none else ()),
+                                           (UNSET, "sharedmem") + ((None,) if with_none else ())):
         out.append({"backend": UNSET if b is None else b, "n_jobs": nj, "prefer": pr, "require": rq})
     return out
 
@@ -118,6 +121,7 @@ def work_resolution(item):
     ctxkind, outers = item
     from joblib.parallel import _backend, default_parallel_config
     settings = group_settings()
+    explicit_settings = group_settings(with_none=True)
     n = 0
     viols = {}
     combos = set()
@@ -134,7 +138,7 @@ def work_resolution(item):
                     cm = enter(ctxkind, c)
                     cm.__enter__()
                     cms.append(cm)
-                for explicit in settings:
+                for explicit in explicit_settings:
                     n += 1
                     got, p = construct(explicit)
                     want = reference(stack_defs, explicit)
@@ -162,8 +166,9 @@ def work_resolution(item):
     return {"n": n, "viol": list(viols.values()), "outcomes": len(combos)}
 
 
-SIMPLE = {"verbose": (UNSET, 3, 60), "max_nbytes": (UNSET, 10, "2K"), "mmap_mode": (UNSET, "c", "r+"),
-          "temp_folder": (UNSET, "/tmp/vf-a", "/tmp/vf-b")}
+# None is a legal explicit value of the last three (and the default of temp_folder): explicit None wins over a context
+SIMPLE = {"verbose": (UNSET, 3, 60), "max_nbytes": (UNSET, 10, "2K", None), "mmap_mode": (UNSET, "c", "r+", None),
+          "temp_folder": (UNSET, "/tmp/vf-a", "/tmp/vf-b", None)}
 DEFAULTS = {"verbose": 0, "max_nbytes": "1M", "mmap_mode": "r", "temp_folder": None}
 
 
